@@ -298,6 +298,8 @@ class Evaluator:
             return [self.eval(a, env, this) for a in e["a"]]
         if k == "mem":
             b = self.eval(e["b"], env, this)
+            if e["n"] == "":
+                return b          # member of an anonymous union/struct: same object
             if isinstance(b, tuple) and e["n"] in ("first", "second") and (not b or b[0] != "enum"):
                 return b[0 if e["n"] == "first" else 1]
             if isinstance(b, dict):
